@@ -181,6 +181,33 @@ def pool_for(tier):
     return names
 
 
+_BASE = None
+
+
+def _base_job(arg):
+    """answer of one query on a fresh pool in a fresh process (no other query has run in it)."""
+    tier, qi = arg
+    names = pool_for(tier)
+    qs = query_instances(names)
+    q = qs[qi]
+    pool = {k: lib.construct(k, BUILDERS[k]) for k in set(q[1:])}
+    return qi, answer(run_query(pool, q))
+
+
+def base_answers(tier):
+    """{query: answer} where every answer comes from a process in which it was the first and only query:
+    module-level state left behind by earlier queries cannot influence it."""
+    import multiprocessing
+    names = pool_for(tier)
+    qs = query_instances(names)
+    ctx = multiprocessing.get_context('fork')
+    out = {}
+    with ctx.Pool(core.NPROC, maxtasksperchild=1) as pool:
+        for qi, a in pool.imap_unordered(_base_job, [(tier, i) for i in range(len(qs))], chunksize=1):
+            out[qs[qi]] = a
+    return out
+
+
 def _purity_job(arg):
     """depth 1 for the q1 chunk and depth 2 for every (q1 in chunk, q2)."""
     tier, i0, i1 = arg
@@ -191,18 +218,16 @@ def _purity_job(arg):
     qs = query_instances(names)
     viols = []
     transitions = 0
-    base_ans = {}
-    for q in qs:
-        base_ans[q] = answer(run_query(pool, q))
-    if full_snapshot(pool) != s0:
-        pool = mk()
-        s0 = full_snapshot(pool)
+    base_ans = _BASE
     pairs = 0
     for q1 in qs[i0:i1]:
         # depth 1
         r = run_query(pool, q1)
         transitions += 1
         a1 = answer(r)
+        if a1 != base_ans[q1]:
+            viols.append(Viol('C20|order|%s|answer-differs-from-first-ever-answer' % q1[0], core.enc(('order', q1, q1)), base_ans[q1][:300], a1[:300],
+                              'answer of %r in a process that ran other queries before differs from its answer as the first query of a process' % (q1,), family='purity'))
         s1 = full_snapshot(pool)
         if s1 != s0:
             fresh = mk()
@@ -236,8 +261,10 @@ def _purity_job(arg):
 
 def purity(tier, res, seed=0):
     import multiprocessing
+    global _BASE
     names = pool_for(tier)
     qs = query_instances(names)
+    _BASE = base_answers(tier)
     step = max(1, len(qs) // 64)
     jobs = [(tier, i, min(i + step, len(qs))) for i in range(0, len(qs), step)]
     k = seed % len(jobs)
